@@ -3,6 +3,7 @@
 package hmirror
 
 import (
+	"encoding/json"
 	"fmt"
 	"sort"
 	"strconv"
@@ -124,6 +125,8 @@ func runMirror(events []string, props []string, seed int, args map[string]string
 	before := s.snapshot()
 	o.afterStep(before, before, applied{ev: "init"})
 	commitsAtSeed := 0
+	var writesAfter []int
+	writesAfter = append(writesAfter, s.st.f.writes)
 	for i, ev := range events {
 		s.step = i
 		gFrom, sFrom := len(s.gLog), len(s.sLog)
@@ -140,6 +143,10 @@ func runMirror(events []string, props []string, seed int, args map[string]string
 				break
 			}
 			o.afterRestart(after)
+			if s.sm.everEntered {
+				s.apply("SME") // the state machine restarts with the process and re-enters its round
+				s.results = s.results[:len(s.results)-1]
+			}
 			// The interrupted message is delivered again (it was in flight).
 			if a.isNetMsg || strings.HasPrefix(ev, "SMA") || strings.HasPrefix(ev, "RP") {
 				if strings.HasPrefix(ev, "SMA") {
@@ -158,6 +165,7 @@ func runMirror(events []string, props []string, seed int, args map[string]string
 			break
 		}
 		res.Keys = append(res.Keys, vx.ShortHash(s.key(after))[:12])
+		writesAfter = append(writesAfter, s.st.f.writes)
 		before = after
 		if i+1 == seed {
 			commitsAtSeed = len(after.headers)
@@ -173,9 +181,20 @@ func runMirror(events []string, props []string, seed int, args map[string]string
 	o.afterStep(before, final, applied{ev: "final-drain"})
 	o.checkOutputs(gFrom, sFrom)
 	o.finalC11(final)
+	if o.on["C09"] {
+		ph, vote := s.witnessed(events)
+		checkMappers(&res, ph, vote)
+		for k := range ph {
+			res.Count("witnessed_ph_result:"+k, 1)
+		}
+		for k := range vote {
+			res.Count("witnessed_vote_result:"+k, 1)
+		}
+	}
 
 	res.Key = s.key(final)
 	res.Trace = events
+	res.Obs, _ = json.Marshal(map[string]any{"end": endKey(final), "writes": writesAfter, "crashed": s.restarts})
 	res.Outcome = fmt.Sprintf("V%d/%d C%d hdrs%d r%d", final.voting.Height, final.voting.Round, final.committing.Height, len(final.headers), s.restarts)
 	_ = commitsAtSeed
 	res.NonTrivial = len(final.headers) > 0 || len(s.delivered) > 0
